@@ -118,6 +118,13 @@ def run_case(case, ctx):
             want = float(np.real(np.trace(rho @ op)) / tr)
             got = float(np.sum(p * v))
             scale = float(np.sum(p * np.abs(v))) + 1e-300
+            if name in ("SigmaX", "SigmaY"):
+                # the per-sample value is the real part of a sum of importance ratios psi(s^i)/psi(s) (rho(s^i,s)/rho(s,s)):
+                # relative errors of the energies act on |ratio| <= sqrt(p(s^i)/p(s)), which can be far larger than the
+                # value itself (small imaginary/real part): scale = sum_s sum_i sqrt(p(s) p(s^i)) / n
+                idx = np.arange(N)
+                fs = sum(np.sqrt(p * p[idx ^ (1 << (nv - 1 - i_))]) for i_ in range(nv)) / nv
+                scale = max(scale, float(np.sum(fs)))
             ctx.count("expectations_compared")
             ctx.count("mixed_state_expectations" if kind == "mixed" else "pure_state_expectations")
             if not abs(got - want) <= tau * max(scale, abs(want)):
